@@ -943,7 +943,7 @@ func (cg *ConsumerGroup) coordinator() (coordinator, error) {
 func (cg *ConsumerGroup) joinGroup(conn coordinator, memberID string) (string, int32, GroupMemberAssignments, error) {
 	request, err := cg.makeJoinGroupRequest(memberID)
 	if err != nil {
-		return "", 0, nil, err
+		return memberID, 0, nil, err
 	}
 
 	response, err := conn.joinGroup(request)
@@ -951,7 +951,9 @@ func (cg *ConsumerGroup) joinGroup(conn coordinator, memberID string) (string, i
 		err = Error(response.ErrorCode)
 	}
 	if err != nil {
-		return "", 0, nil, err
+		// a prior memberID may still be registered with the coordinator, keep
+		// it so that the caller can leave the group.
+		return memberID, 0, nil, err
 	}
 
 	memberID = response.MemberID
